@@ -132,7 +132,11 @@ def _distribute_try(computation_graph: ComputationGraph,
                                  dependent_var)) > 0]
 
             candidates.sort(key=lambda x: len(mapping[a]))
-            if candidates:
+            if hostwith[0] in var_hosted:
+                # The variable is already hosted (e.g. by a must_host hint):
+                # the factor joins it, the variable must not be hosted twice.
+                selected = var_hosted[hostwith[0]]
+            elif candidates:
                 selected = candidates[0]
             else:
                 selected = choice(list(agents_capa.keys()))
